@@ -10,19 +10,25 @@ RULE = ('seeded charts on a queued host driven by histories of defer/recall/post
         'plus handlers that defer the event being processed or call recall (bounded fire counts), including recall on an '
         'empty defer queue; oracle: a two-deque model - recall moves the oldest deferred event to the back of the queue '
         'and returns it, or returns None and changes nothing; a deferred event is never dispatched before its recall; '
-        'queue and deferred-queue contents match the model after every op. Non-trivial = a recall with >= 1 deferred '
+        'queue and deferred-queue contents match the model after every op; a small-capacity stratum (2-4) fills the deferred queue and checks only that a deferred, not yet recalled event is never dispatched and that recall returns the oldest deferred event still held. Non-trivial = a recall with >= 1 deferred '
         'event, or a defer made by a handler; distinct = distinct (op, deferred count, queue length) tuples.')
 ASSUMPTIONS = ['no schedule dimension']
-PROBES = []
+PROBES = ['defer_on_full_deferred_queue']
 PLAN = {
-  'quick': {'strata': {'defer-recall': 5000}, 'wall_s': 90, 'chunk': 100, 'min_conclusive': 1000},
-  'thorough': {'strata': {'defer-recall': 120000}, 'wall_s': 900, 'chunk': 250, 'min_conclusive': 10000},
+  'quick': {'strata': {'defer-recall': 5000, 'small-capacity': 3000}, 'wall_s': 90, 'chunk': 100, 'min_conclusive': 1000},
+  'thorough': {'strata': {'defer-recall': 120000, 'small-capacity': 60000}, 'wall_s': 900, 'chunk': 250, 'min_conclusive': 10000},
 }
 ORACLES = [lambda run, res: co.check_queue_order(run, res, want=('C15',))]
 
 
 def generate(seed, stratum, tier):
   rng = random.Random(seed)
+  if stratum == 'small-capacity':
+    kw = {'fx_rate': rng.choice([0.0, 0.3]), 'fx_ops': ('defer', 'post_fifo'), 'nstates': rng.randrange(1, 5)}
+    sc = cc.gen_chart_scenario(rng, combos=[('queued', 'closure'), ('queued', 'closure-spied')], spec_kw=kw,
+                               ops=('defer', 'recall', 'post_fifo', 'rtc', 'circuit'), weights=(6, 2, 2, 3, 1), nops=(6, 40))
+    sc['queue_size'] = rng.choice([2, 3, 4])
+    return sc
   kw = {'fx_rate': rng.choice([0.0, 0.25, 0.5]), 'fx_ops': ('defer', 'recall', 'post_fifo'), 'nstates': rng.randrange(2, 8)}
   return cc.gen_chart_scenario(rng, combos=[('queued', 'closure'), ('queued', 'closure-spied'), ('queued', 'template')],
                                spec_kw=kw, ops=('defer', 'recall', 'post_fifo', 'post_lifo', 'rtc', 'circuit'),
@@ -47,4 +53,17 @@ def collect(run, res):
 
 
 def execute(sc, sched):
+  if sc.get('queue_size'):
+    # overflow of the (deferred) queue: which event is displaced is not constrained, so the exact
+    # deque model is not used here - only the hold-back rule and recall's return value
+    return cc.run_and_judge(sc, sched, [co.check_defer_holdback], collect=collect_small)
   return cc.run_and_judge(sc, sched, ORACLES, collect=collect)
+
+
+def collect_small(run, res):
+  res.nontrivial[:] = []
+  cap = run.sc['queue_size']
+  for ob in run.steps:
+    if ob.op[0] == 'defer' and ob.deferred is not None and len(ob.deferred) >= cap:
+      run.sim.probe('defer_on_full_deferred_queue')
+      res.nontrivial.append(hash(('defer-full', cap, len(ob.queue or []))))
